@@ -1,5 +1,5 @@
 SPECIFICATION Spec
-CONSTANTS MaxJobs = 3  MaxFail = 1  GenDepth = 0  WeakDeps = FALSE  WeakOnce = FALSE  WeakBound = FALSE
+CONSTANTS MaxJobs = 3  MaxFail = 1  GenDepth = 0  WeakDeps = FALSE  WeakOnce = FALSE  WeakBound = FALSE  Dags = {1, 2, 3, 4, 5, 6}
 INVARIANT ReachFullParallel
 INVARIANT ReachKeepGoingPartial
 INVARIANT ReachStartAfterFailure
